@@ -177,6 +177,26 @@ fn run_binops(cx: &mut CaseCx, case: &Value) {
     if (ra == rb) != (a == b) {
       cx.viol("C07/binop/eq", "equality of elements disagrees with equality of integers", d());
     }
+    // the other comparison traits must tell the same story as the integers: Ord / PartialOrd, constant-time
+    // equality, conditional selection (trait implementations that disagree with each other)
+    {
+      use subtle::{Choice, ConditionallySelectable, ConstantTimeEq};
+      cx.eval();
+      if ra.cmp(&rb) != a.cmp(b) || ra.partial_cmp(&rb) != Some(a.cmp(b)) {
+        cx.viol("C07/binop/ord", format!("ordering of elements ({:?}) disagrees with the ordering of the integers ({:?})", ra.cmp(&rb), a.cmp(b)), d());
+      }
+      if bool::from(ra.ct_eq(&rb)) != (a == b) {
+        cx.viol("C07/binop/ct_eq", "constant-time equality disagrees with equality of integers", d());
+      }
+      if Fp::conditional_select(&ra, &rb, Choice::from(0)) != ra || Fp::conditional_select(&ra, &rb, Choice::from(1)) != rb {
+        cx.viol("C07/binop/conditional_select", "conditional_select does not return the selected operand", d());
+      }
+      let (mut x, mut y) = (ra, rb);
+      Fp::conditional_swap(&mut x, &mut y, Choice::from(1));
+      if x != rb || y != ra {
+        cx.viol("C07/binop/conditional_swap", "conditional_swap does not swap", d());
+      }
+    }
     cx.nontrivial(fnv_str(&format!("{}|{}", a, b)));
   }
   cx.outcome(format!("row-bits-{}", a.bits()));
